@@ -664,6 +664,12 @@ fn run_history(h: &Hist, lean: &mut Lean, prop: &str) -> Outcome {
     let mut lost: Vec<(KindSpec, u64, String)> = vec![];
     // the schedule made by the most recent executed lookup, if it succeeded (a failed one schedules by backoff)
     let mut last_sched: Option<Sched> = None;
+    // the clock value at which the worker last evaluated the active slot in a way that can leave it empty: every
+    // executed lookup ends with maybe_update_active_path(now); an issue delivery re-evaluates only when an active path
+    // is affected (so it matters here only when it clears the slot).  An empty slot is the worker's verdict at THAT
+    // instant; the histories rarely step the clock back, and a sender asking at an earlier clock value must be
+    // judged against what was cached and valid when the worker decided, not against its own earlier clock.
+    let mut slot_eval: Option<u64> = None;
     let mut exited = false;
 
     for (idx, op) in h.ops.iter().enumerate() {
@@ -764,6 +770,9 @@ fn run_history(h: &Hist, lean: &mut Lean, prop: &str) -> Outcome {
                         let backoff = if failed_fetch { nr.saturating_sub(now) } else { 0 };
                         let ord = if post.is_empty() { "-".to_string() } else { cache_fps(&post).iter().map(|f| f.to_string()).collect::<Vec<_>>().join(",") };
                         // ---- oracle: C06 -----------------------------------------------------
+                        if fetched {
+                            slot_eval = Some(now);
+                        }
                         if fetched && !exited {
                             if nr < now + mrd_ns {
                                 spec.push(("C06:refetch-window:too-soon".into(), format!("next refetch {nr} < now {now} + min_refetch_delay {mrd_ns}")));
@@ -954,6 +963,9 @@ fn run_history(h: &Hist, lean: &mut Lean, prop: &str) -> Outcome {
                             }
                         }
                         let changed = pre_active.as_ref().map(|p| p.1) != post_active.as_ref().map(|p| p.1);
+                        if pre_active.is_some() && post_active.is_none() {
+                            slot_eval = Some(now);
+                        }
                         if changed && pre_active.is_some() && post_active.is_some() {
                             out.swaps += 1;
                             swap_rule(&pre_active, &l, &post, now, thr_ns, h.cfg.threshold, &mut spec);
@@ -1011,7 +1023,13 @@ fn run_history(h: &Hist, lean: &mut Lean, prop: &str) -> Outcome {
                     let unexpired = |e: &VerifCacheEntry| e.expiry.map(|x| x as u64 > now / NS).unwrap_or(true);
                     if cache.iter().any(|e| unexpired(e)) {
                         let act_expired = act.as_ref().map(|(p, _)| p.expiration().map(|e| e as u64 <= now / NS).unwrap_or(false));
-                        let any_valid = cache.iter().any(|e| valid_at(e.expiry, now, thr_ns));
+                        // "valid" for the empty-slot classes is judged at the later of the sender's clock and the worker's
+                        // last evaluation of the slot (the same instant unless the clock stepped back in between): a path
+                        // that was within min_expiry_threshold of its expiry when the worker looked is the open class
+                        // only-near-expiry-paths, whatever an earlier clock value says about it.  valid_at is antitone in
+                        // time, so with a clock that never steps back this is valid_at(now).
+                        let t_cls = now.max(slot_eval.unwrap_or(0));
+                        let any_valid = cache.iter().any(|e| valid_at(e.expiry, t_cls, thr_ns));
                         // The open finding "active path expired between ticks" is about the worker not waking when the
                         // active path expires although the next lookup WAS scheduled by the documented rule.  A lookup that
                         // was scheduled later than the rule allows (e.g. from the active path's expiry only, ignoring the
@@ -1037,7 +1055,13 @@ fn run_history(h: &Hist, lean: &mut Lean, prop: &str) -> Outcome {
                                 ));
                             }
                             Some(true) => spec.push(("C06:without-path:active-expired-between-ticks".into(), format!("the active path expired before the worker's next maintenance tick (next refetch {}), cached_path returns none although {} cached path(s) are not expired at now={now}", ns_of(l.vs.next_refetch()), cache.iter().filter(|e| unexpired(e)).count()))),
-                            None if !any_valid => spec.push(("C06:without-path:only-near-expiry-paths".into(), format!("every cached path is within min_expiry_threshold of its expiry but not expired at now={now}; none is made active and the sender gets no path"))),
+                            None if !any_valid => spec.push((
+                                "C06:without-path:only-near-expiry-paths".into(),
+                                format!(
+                                    "every cached path is within min_expiry_threshold of its expiry{} but not expired at now={now}; none is made active and the sender gets no path",
+                                    if t_cls > now { format!(" at {t_cls}, the instant the worker last evaluated the empty active slot (the clock stepped back since)") } else { String::new() }
+                                ),
+                            )),
                             _ => spec.push(("C06:without-path".into(), format!("cached_path returned none at now={now} although an unexpired path is cached (active slot: {:?})", act.as_ref().map(|a| fp_exp(&a.0))))),
                         }
                     }
